@@ -51,8 +51,19 @@ def enc_dates(ds):
     return 'N' if ds is None else '(L' + ''.join(' ' + enc(d) for d in ds) + ')'
 
 
+OMIT = 'omit'      # openclose not passed at all: df_slice's own default '(]'
+
+
 def enc_oc(oc):
-    return 'N' if oc is None else enc(oc)
+    return 'N' if oc is None else '(L)' if oc == OMIT else enc(oc)
+
+
+def call_slice(df, lb, ub, ocx, **kw):
+    """df_slice with openclose as on the wire: (L) = argument omitted"""
+    from pyg_base import df_slice
+    if ocx == ['L']:
+        return df_slice(df, lb, ub, **kw)
+    return df_slice(df, lb, ub, None if ocx == 'N' else proto.dec(ocx), **kw)
 
 
 def enc_frame_rows(width, rows):
@@ -138,6 +149,24 @@ def rand_series12(rng):
     return [(pt(i), None if rng.random() < 0.1 else rng.randrange(1, 9)) for i in keep]
 
 
+def reorder(rng, pairs):
+    """the property quantifies over datetime-indexed series, not over sorted ones: decreasing / shuffled indexes
+    (F13: the pandas label slice the code takes for closed brackets cuts by position there)"""
+    r = rng.random()
+    if r < 0.4:
+        return pairs[::-1], '+decreasing-index'
+    if r < 0.8:
+        q = list(pairs)
+        rng.shuffle(q)
+        return q, '+shuffled-index'
+    # a sorted index holding a timestamp twice (label slice on a non-unique monotonic index)
+    q = list(pairs)
+    if q:
+        k = rng.randrange(len(q))
+        q.insert(k, (q[k][0], rng.randrange(1, 9)))
+    return q, '+duplicate-stamps'
+
+
 def date_bounds():
     """dates every 3 hours from before the first to after the last index point"""
     return [D0 + 3 * k * H for k in range(-2, 25)]
@@ -192,6 +221,20 @@ def gen_single(rng, tier):
             lb, ub = rng.choice([None] + DB), rng.choice([None] + DB)
             oc = rng.choice(['oc', 'CO', 'cc', 'oO', None, '', 'x]', '(', '(]]', ' ]', '[|'])
             tag = 'one-brackets'
+        if rng.random() < 0.25 and tag != 'one-brackets':
+            if tag == 'one-date' and rng.random() < 0.7:
+                # bounds on index points and closed brackets: where the label slice is taken and finds its labels
+                lb = rng.choice([None, pt(rng.randrange(12))])
+                ub = rng.choice([None, pt(rng.randrange(12))])
+                oc = rng.choice(['[]', '[]', '(]', '[)'])
+            pairs, sfx = reorder(rng, pairs)
+            if sfx == '+duplicate-stamps' and tag.startswith('one-tod-wrap'):
+                pairs = [p for i, p in enumerate(pairs) if i == 0 or pairs[i - 1][0] != p[0]]   # sort_index of equal stamps is not pinned down
+                sfx = ''
+            tag += sfx
+        elif rng.random() < 0.15 and oc == '(]':
+            oc = OMIT                    # the default brackets of df_slice itself
+            tag += '+default-oc'
         if rng.random() < 0.2:
             w = 2
             rows = [(t, [v, None if rng.random() < 0.3 else rng.randrange(1, 9)]) for t, v in pairs]
@@ -242,7 +285,7 @@ def gen_stitch(rng, tier):
             dfs = [[(t, v) for t, v in p if ((t - D0).days % 2) == (k % 2)] for k, p in enumerate(dfs)]
         n = rng.choice([1, 1, 2, 3, m, m + 1])
         bs = [day(b) for b in rand_bounds(rng, m)]
-        oc = '(]' if rng.random() < 0.7 else rng.choice(BR + [None])
+        oc = rng.choice(['(]', '(]', OMIT]) if rng.random() < 0.7 else rng.choice(BR + [None])
         r = rng.random()
         tag = 'stitch-ub'
         lb, ub = None, bs
@@ -308,22 +351,25 @@ def _canon_frame(r):
     return enc_frame(r)
 
 
+def _quiet():
+    import logging
+    logging.getLogger('pyg').setLevel(logging.ERROR)      # is_ts logs every unsorted series it meets
+
+
 def run_line(state, sx):
     from pyg_base import df_slice, df_unslice
+    _quiet()
     op, args = sx[1], sx[2:]
     if op == 'one':
         s = dec_ts(args[0])
-        oc = None if args[3] == 'N' else proto.dec(args[3])
-        return 'ok ' + enc_result(df_slice(s, dec_bound(args[1]), dec_bound(args[2]), oc))
+        return 'ok ' + enc_result(call_slice(s, dec_bound(args[1]), dec_bound(args[2]), args[3]))
     if op == 'onef':
         f = dec_frame(args[0])
-        oc = None if args[3] == 'N' else proto.dec(args[3])
-        return 'ok ' + enc_frame(df_slice(f, dec_bound(args[1]), dec_bound(args[2]), oc))
+        return 'ok ' + enc_frame(call_slice(f, dec_bound(args[1]), dec_bound(args[2]), args[3]))
     if op == 'stitch':
         dfs = [dec_ts(x) for x in args[0][1:]]
-        oc = None if args[3] == 'N' else proto.dec(args[3])
         n = int(args[4][2:])
-        return 'ok ' + enc_frame(df_slice(dfs, dec_dates(args[1]), dec_dates(args[2]), oc, n))
+        return 'ok ' + enc_frame(call_slice(dfs, dec_dates(args[1]), dec_dates(args[2]), args[3], n=n))
     if op == 'roundtrip':
         dfs = [dec_ts(x) for x in args[0][1:]]
         ub = dec_dates(args[1])
@@ -407,6 +453,7 @@ def py_stitch(dfs, ub, n):
 
 def laws(rng, tier, ctx):
     from pyg_base import df_slice, df_unslice
+    _quiet()
     count = 0
     DB, TB = date_bounds(), time_bounds()
     m1 = 250 if tier == 'quick' else 4000
@@ -418,7 +465,14 @@ def laws(rng, tier, ctx):
             lb, ub = rng.choice([None] + TB), rng.choice([None] + TB)
         oc = rng.choice(BR)
         count += 1
-        case = dict(tag='law-slice', lines=[one_line(pairs, lb, ub, oc)])
+        tag = 'law-slice'
+        wrap = isinstance(lb, datetime.time) and isinstance(ub, datetime.time) and lb > ub
+        if rng.random() < 0.3:
+            pairs, sfx = reorder(rng, pairs)
+            if sfx == '+duplicate-stamps' and wrap:
+                pairs = [p for i, p in enumerate(pairs) if i == 0 or pairs[i - 1][0] != p[0]]
+            tag += sfx
+        case = dict(tag=tag, lines=[one_line(pairs, lb, ub, oc)])
         s = pd.Series([np.nan if v is None else float(v) for _, v in pairs], pd.DatetimeIndex([t for t, _ in pairs]), dtype=float)
         try:
             r = df_slice(s, lb, ub, oc)
@@ -426,6 +480,8 @@ def laws(rng, tier, ctx):
             yield Finding('violation', case, 'df_slice raised %s' % type(e).__name__)
             continue
         want = [(t, v) for t, v in pairs if (py_in(t, lb, ub, oc) if (lb is not None or ub is not None) and pairs else True)]
+        if wrap:
+            want.sort(key=lambda p: p[0])        # the two halves are put back in time order (sort_index)
         got = [(pd.Timestamp(t).to_pydatetime(), None if v != v else int(v)) for t, v in zip(r.index, r.values)]
         if got != want:
             yield Finding('violation', case, 'rows kept %s, the interval prescribes %s' % (got, want))
